@@ -680,6 +680,8 @@ class RunMonitor:
                                 hist = None
                         if hist is None and extra:
                             hist = extra[-1][1]
+                        if extra and not math.isfinite(extra[-1][1]):
+                            hist = None  # non-finite SDs make the documented improvement undefined: either outcome accepted
                         if hist is None:
                             exp = [k0 - 1, k0 - 2]
                         elif hist < float(o["tol_fun"]):
